@@ -114,13 +114,37 @@ Lemma krel_ext k st T T' RI RI' :
   dget k2_eqb k T' = dget k2_eqb k T -> kprojI k RI' = kprojI k RI -> krel k st T RI -> krel k st T' RI'.
 Proof. intros H1 H2. unfold krel. rewrite H1, H2. auto. Qed.
 
+(* dropping the zero-length (on, off) pairs of an alternating list *)
+Fixpoint dzc (o : option msg) (L : list msg) : list msg :=
+  match L with
+  | [] => []
+  | m :: L' => match o with
+               | None => dzc (Some m) L'
+               | Some on => (if m_time m - m_time on <=? 0 then [] else [on; m]) ++ dzc None L'
+               end
+  end.
+
+Definition dz (L : list msg) : list msg :=
+  dzc None L ++ match popen None L with Some on => [on] | None => [] end.
+
+Lemma dzc_snoc L : forall o m,
+  dzc o (L ++ [m]) = dzc o L ++ match popen o L with
+                                | Some on => if m_time m - m_time on <=? 0 then [] else [on; m]
+                                | None => [] end.
+Proof.
+  induction L as [|x L IH]; intros o m; cbn [app dzc popen].
+  - destruct o; [now rewrite app_nil_r|reflexivity].
+  - destruct o; rewrite IH; [now rewrite app_assoc|reflexivity].
+Qed.
+
 Definition sweep_S (o : list msg) : list nat := smothered (index_from 0 o) [].
 Definition sweep_T (o : list msg) : stab := stbl (index_from 0 o) [].
 Definition sweep_RI (o : list msg) : list (nat * msg) := filter (nin (sweep_S o)) (index_from 0 o).
 
 Definition sweep_inv (o : list msg) : Prop :=
   uniq (sweep_T o) /\
-  forall k, exists st, krun false KNone (kproj k o) = Some st /\ krel k st (sweep_T o) (sweep_RI o).
+  forall k, (exists st, krun false KNone (kproj k o) = Some st /\ krel k st (sweep_T o) (sweep_RI o)) /\
+            map snd (kprojI k (sweep_RI o)) = dz (kproj k o).
 
 Lemma sweep_S_snoc o x : sweep_S (o ++ [x]) = sweep_S o ++ sm_out (sweep_T o) (length o, x).
 Proof. unfold sweep_S, sweep_T. now rewrite index_from_snoc, smothered_app, smothered_one. Qed.
@@ -250,12 +274,15 @@ Proof.
     assert (Ho : sm_out (sweep_T o) (n, x) = []) by (unfold sm_out; cbn [snd]; now rewrite Hon, Hoff).
     assert (Ht : sweep_T (o ++ [x]) = sweep_T o).
     { rewrite sweep_T_snoc. unfold sm_tbl. cbn [snd]. now rewrite Hon, Hoff. }
-    split; [now rewrite Ht|]. intros k. destruct (Hk k) as (st & Hr & Hrel). exists st.
-    rewrite kproj_snoc_other by now rewrite N. split; [exact Hr|].
-    rewrite Ht, (sweep_RI_snoc_keep o x Ho). eapply krel_ext; [reflexivity| |exact Hrel].
-    rewrite kprojI_snoc. cbn [snd]. rewrite N. apply app_nil_r. }
+    split; [now rewrite Ht|]. intros k. destruct (Hk k) as [(st & Hr & Hrel) Hdz].
+    assert (HI : kprojI k (sweep_RI (o ++ [x])) = kprojI k (sweep_RI o)).
+    { rewrite (sweep_RI_snoc_keep o x Ho), kprojI_snoc. cbn [snd]. rewrite N. apply app_nil_r. }
+    rewrite kproj_snoc_other by now rewrite N. split; [|now rewrite HI].
+    exists st. split; [exact Hr|].
+    rewrite Ht. eapply krel_ext; [reflexivity|exact HI|exact Hrel]. }
   set (k0 := qkey x).
-  destruct (Hk k0) as (st0 & Hr0 & Hrel0).
+  destruct (Hk k0) as [(st0 & Hr0 & Hrel0) Hdz0].
+  pose proof (krun_popen false _ KNone None st0 Hr0 eq_refl) as Hpo0.
   pose proof (Hnf k0) as Hnf0. unfold k0 in Hnf0. rewrite kproj_snoc_same, krun_app in Hnf0 by exact N.
   fold k0 in Hnf0. rewrite Hr0 in Hnf0. cbn [krun] in Hnf0.
   destruct (kstep false st0 x) as [st1|] eqn:KS; [|congruence]. clear Hnf0.
@@ -265,12 +292,14 @@ Proof.
   assert (Hframe : forall k, k <> k0 ->
             dget k2_eqb k (sweep_T (o ++ [x])) = dget k2_eqb k (sweep_T o) ->
             kprojI k (sweep_RI (o ++ [x])) = kprojI k (sweep_RI o) ->
-            exists st, krun false KNone (kproj k (o ++ [x])) = Some st /\
-                       krel k st (sweep_T (o ++ [x])) (sweep_RI (o ++ [x]))).
-  { intros k Hne H1 H2. destruct (Hk k) as (st & Hr & Hrel). exists st. split.
-    - rewrite kproj_snoc_other; [exact Hr|]. destruct (k2_eqb k (qkey x)) eqn:E; [|apply andb_false_r].
-      apply k2_eqb_eq in E. now destruct Hne.
-    - eapply krel_ext; eauto. }
+            (exists st, krun false KNone (kproj k (o ++ [x])) = Some st /\
+                        krel k st (sweep_T (o ++ [x])) (sweep_RI (o ++ [x]))) /\
+            map snd (kprojI k (sweep_RI (o ++ [x]))) = dz (kproj k (o ++ [x]))).
+  { intros k Hne H1 H2. destruct (Hk k) as [(st & Hr & Hrel) Hdz].
+    assert (Hkp : kproj k (o ++ [x]) = kproj k o).
+    { apply kproj_snoc_other. destruct (k2_eqb k (qkey x)) eqn:E; [|apply andb_false_r].
+      apply k2_eqb_eq in E. now destruct Hne. }
+    rewrite Hkp, H2. split; [|exact Hdz]. exists st. split; [exact Hr|]. eapply krel_ext; eauto. }
   assert (Hneq : forall k, k <> k0 -> k2_eqb k k0 = false).
   { intros k Hne. destruct (k2_eqb k k0) eqn:E; [|reflexivity]. apply k2_eqb_eq in E. now destruct Hne. }
   destruct (is_on x) eqn:Hon.
@@ -281,7 +310,16 @@ Proof.
     { rewrite sweep_T_snoc. unfold sm_tbl. cbn [snd fst]. now rewrite Hon. }
     split; [rewrite Ht; now apply uniq_dset|].
     intros k. destruct (k2_eqb k k0) eqn:E.
-    + apply k2_eqb_eq in E. subst k. exists (KOpen (m_time x)). split; [exact Hrun0|].
+    + apply k2_eqb_eq in E. subst k.
+      assert (HI : kprojI k0 (sweep_RI (o ++ [x])) = kprojI k0 (sweep_RI o) ++ [(n, x)]).
+      { rewrite (sweep_RI_snoc_keep o x Ho), kprojI_snoc. cbn [snd]. fold k0. now rewrite N, k2_eqb_refl. }
+      split.
+      2:{ rewrite HI, map_app, Hdz0. unfold k0 at 2. rewrite kproj_snoc_same by exact N. fold k0.
+          assert (Hp0 : popen None (kproj k0 o) = None).
+          { destruct (popen None (kproj k0 o)); [|reflexivity].
+            destruct Hst0 as [->|(a & b & -> & _)]; discriminate. }
+          unfold dz. rewrite dzc_snoc, popen_snoc, Hp0, !app_nil_r. reflexivity. }
+      exists (KOpen (m_time x)). split; [exact Hrun0|].
       rewrite Ht, (sweep_RI_snoc_keep o x Ho). cbn [krel].
       assert (Hst'' : exists st'', krun true KNone (map snd (kprojI k0 (sweep_RI o))) = Some st'' /\
                                    le_end st'' (m_time x)).
@@ -302,8 +340,14 @@ Proof.
     assert (Ht : sweep_T (o ++ [x]) = ddel k2_eqb k0 (sweep_T o)).
     { rewrite sweep_T_snoc. unfold sm_tbl. cbn [snd fst]. rewrite Hon, Hoff. fold k0. now rewrite HT. }
     split; [rewrite Ht; now apply uniq_ddel|].
-    assert (Hx0 : krun true KNone (map snd (X ++ [(j, x0)])) = Some (KOpen a)).
-    { rewrite map_app, krun_app, Hrun''. cbn [map snd krun]. subst a. now rewrite (kstep_on_le_end true st'' x0 Hon0 Hle''). }
+    destruct (popen None (kproj k0 o)) as [on0|] eqn:Hp0; [|discriminate]. clear Hpo0.
+    assert (Hdzx : map snd X = dzc None (kproj k0 o) /\ x0 = on0).
+    { rewrite HX, map_app in Hdz0. unfold dz in Hdz0. rewrite Hp0 in Hdz0. cbn [map snd] in Hdz0.
+      now apply app_inj_tail in Hdz0. }
+    destruct Hdzx as [HdzX ->].
+    assert (Hkp0 : kproj k0 (o ++ [x]) = kproj k0 o ++ [x]) by (unfold k0; now apply kproj_snoc_same).
+    assert (Hx0 : krun true KNone (map snd (X ++ [(j, on0)])) = Some (KOpen a)).
+    { rewrite map_app, krun_app, Hrun''. cbn [map snd krun]. subst a. now rewrite (kstep_on_le_end true st'' on0 Hon0 Hle''). }
     destruct (m_time x - a <=? 0) eqn:Z0; [apply Z.leb_le in Z0|apply Z.leb_gt in Z0].
     + (* zero length: both are removed *)
       assert (Ho : sm_out (sweep_T o) (n, x) = [j; n]).
@@ -311,21 +355,34 @@ Proof.
         apply Z.leb_le in Z0. now rewrite Z0. }
       rewrite (sweep_RI_snoc_drop o x j Ho).
       intros k. destruct (k2_eqb k k0) eqn:E.
-      * apply k2_eqb_eq in E. subst k. exists (KClosed a (m_time x)). split; [exact Hrun0|].
+      * apply k2_eqb_eq in E. subst k. split.
+        2:{ rewrite (drop_same o j on0 k0 X HX), HdzX, Hkp0. unfold dz.
+            rewrite dzc_snoc, popen_snoc, Hp0, Ht0. apply Z.leb_le in Z0. now rewrite Z0, !app_nil_r. }
+        exists (KClosed a (m_time x)). split; [exact Hrun0|].
         rewrite Ht. cbn [krel]. split; [now rewrite dget2_ddel, k2_eqb_refl|].
-        exists st''. rewrite (drop_same o j x0 k0 X HX). split; [exact Hrun''|]. eapply le_end_mono; [exact Hle''|]. cbn in Hle. lia.
+        exists st''. rewrite (drop_same o j on0 k0 X HX). split; [exact Hrun''|]. eapply le_end_mono; [exact Hle''|]. cbn in Hle. lia.
       * assert (Hne : k <> k0) by (intros ->; rewrite k2_eqb_refl in E; discriminate).
-        destruct (Hk k) as (st & Hr & Hrel). exists st. split.
-        -- rewrite kproj_snoc_other; [exact Hr|]. fold k0. now rewrite E, andb_false_r.
-        -- eapply krel_ext; [| |exact Hrel].
-           ++ now rewrite Ht, dget2_ddel, E.
-           ++ now apply (drop_other o j x0 k0 k X HX).
+        destruct (Hk k) as [(st & Hr & Hrel) Hdz].
+        assert (Hkp : kproj k (o ++ [x]) = kproj k o).
+        { apply kproj_snoc_other. fold k0. now rewrite E, andb_false_r. }
+        rewrite Hkp, (drop_other o j on0 k0 k X HX Hne). split; [|exact Hdz].
+        exists st. split; [exact Hr|].
+        eapply krel_ext; [| |exact Hrel].
+        -- now rewrite Ht, dget2_ddel, E.
+        -- now apply (drop_other o j on0 k0 k X HX).
     + (* positive length: kept *)
       assert (Ho : sm_out (sweep_T o) (n, x) = []).
       { unfold sm_out. cbn [snd fst]. rewrite Hon, Hoff. fold k0. rewrite HT.
         apply Z.leb_gt in Z0. now rewrite Z0. }
       intros k. destruct (k2_eqb k k0) eqn:E.
-      * apply k2_eqb_eq in E. subst k. exists (KClosed a (m_time x)). split; [exact Hrun0|].
+      * apply k2_eqb_eq in E. subst k.
+        assert (HI : kprojI k0 (sweep_RI (o ++ [x])) = kprojI k0 (sweep_RI o) ++ [(n, x)]).
+        { rewrite (sweep_RI_snoc_keep o x Ho), kprojI_snoc. cbn [snd]. fold k0. now rewrite N, k2_eqb_refl. }
+        split.
+        2:{ rewrite HI, HX, !map_app, HdzX, Hkp0. cbn [map snd]. unfold dz.
+            rewrite dzc_snoc, popen_snoc, Hp0, Ht0. apply Z.leb_gt in Z0. rewrite Z0, app_nil_r, <- app_assoc.
+            reflexivity. }
+        exists (KClosed a (m_time x)). split; [exact Hrun0|].
         rewrite Ht, (sweep_RI_snoc_keep o x Ho). cbn [krel]. split; [now rewrite dget2_ddel, k2_eqb_refl|].
         exists (KClosed a (m_time x)). split.
         -- rewrite kprojI_snoc. cbn [snd]. fold k0. rewrite N, k2_eqb_refl. cbn [andb].
@@ -341,7 +398,7 @@ Qed.
 Lemma sweep_inv_all o : (forall k, krun false KNone (kproj k o) <> None) -> sweep_inv o.
 Proof.
   induction o as [|x o IH] using rev_ind; intros Hnf.
-  - split; [constructor|]. intros k. exists KNone. split; [reflexivity|]. cbn. split; reflexivity.
+  - split; [constructor|]. intros k. split; [|reflexivity]. exists KNone. split; [reflexivity|]. cbn. split; reflexivity.
   - apply sweep_step; [exact Hnf|]. apply IH. intros k Hk. apply (Hnf k).
     rewrite kproj_snoc, krun_app, Hk. reflexivity.
 Qed.
@@ -358,10 +415,18 @@ Proof.
   intros H k.
   assert (Hnf : forall k, krun false KNone (kproj k o) <> None).
   { intros k' Hk'. destruct (H k') as (st & Hr & _). congruence. }
-  destruct (sweep_inv_all o Hnf) as [_ Hk]. destruct (Hk k) as (st & Hr & Hrel).
+  destruct (sweep_inv_all o Hnf) as [_ Hk]. destruct (Hk k) as [(st & Hr & Hrel) _].
   destruct (H k) as (st' & Hr' & Hc). rewrite Hr in Hr'. injection Hr' as <-.
   unfold wf_key. rewrite sweep_eq, kproj_map.
   destruct st as [|a|a b]; cbn [krel kst_closed] in *; [| contradiction |].
   - destruct Hrel as [_ ->]. reflexivity.
   - destruct Hrel as (_ & st' & -> & [->|(a' & b' & -> & _)]); reflexivity.
+Qed.
+
+(* per key, the sweep drops exactly the zero-length pairs *)
+Lemma sweep_dz o : (forall k, krun false KNone (kproj k o) <> None) ->
+  forall k, kproj k (sweep o) = dz (kproj k o).
+Proof.
+  intros Hnf k. destruct (sweep_inv_all o Hnf) as [_ Hk]. destruct (Hk k) as [_ H].
+  now rewrite sweep_eq, kproj_map.
 Qed.
